@@ -236,8 +236,23 @@ func enrollCaseBody(c *engine.Ctx, ec enrollCase) {
 	cfgs := fmt.Sprintf("%s on %s, storage wrapper %v, node wrapper %v, registration wrapper %v, state/params %s", ec.Flow, ec.Backend, ec.StorageWrap, ec.NodeWrap, ec.RegWrap, ec.State)
 	viol := func(key, what string) { r.Violation(key, what+" ("+cfgs+")", ec) }
 
-	s := world.MustServer(world.ServerCfg{Backend: ec.Backend, StorageWrap: ec.StorageWrap, RegWrap: ec.RegWrap})
+	// roots of different age: freshly created defaults, short-lived (1 h), and a pair that has been in
+	// service for days (crafted windows, both valid now) - the leaf windows must follow the roots in all
+	scfg := world.ServerCfg{Backend: ec.Backend, StorageWrap: ec.StorageWrap, RegWrap: ec.RegWrap}
+	rootsKind := []string{"fresh", "short-lived", "in-service-for-days"}[(ec.Rep+len(ec.Backend)+len(ec.Flow)+len(ec.State))%3]
+	switch rootsKind {
+	case "short-lived":
+		scfg.RootOpts = []nodeenrollment.Option{nodeenrollment.WithCertificateLifetime(time.Hour)}
+	case "in-service-for-days":
+		scfg.NoRoots = true
+	}
+	s := world.MustServer(scfg)
 	defer s.Close()
+	if rootsKind == "in-service-for-days" {
+		const day = 24 * time.Hour
+		craftRoots(s, -10*day, 4*day, -3*day, 11*day)
+	}
+	r.Count("roots:"+rootsKind, 1)
 
 	// the server's roots, parsed by the harness
 	roots, err := s.Roots()
